@@ -88,7 +88,7 @@ def check(pm: ProgramModel, ctx: Ctx) -> None:
     ctx.not_decided = ["models larger than the abstract family", "Clafer features outside the emitted subset"]
     mb = ModelBuilder(pm)
     nk = 0
-    for d in [x for x in domain_wf(ctx.tier, star=False) if x.n <= 3 and x.max <= 3 and x.min <= 3]:
+    for d in [x for x in domain_wf(ctx.tier, star=True) if x.n <= 3 and x.max <= 3 and x.min <= 3]:
         k = kind(d)
         if k == "other1":
             continue
